@@ -140,3 +140,12 @@ Definition check_month (tol : Q) (month : nat) (statics : list sstatic) (pre : l
 
 Definition check_births_baseline (tol : Q) (pop rate sl tr obs : Q) : nat :=
   if close tol (Qabs' pop) (meat_births_baseline pop rate sl tr) obs then 0%nat else 1%nat.
+
+(* one direct call of AnimalPopulation.calculate_change_in_population on a generated state:
+   sq = [current_population; slaughter[-1]; pregnant total; -; pregnant slaughter fraction];
+   obs = [slaughter; population after slaughter; pregnant total; pregnant birthing; natural deaths; slaughtered pregnant; hours left] *)
+Definition check_phase_b (tol : Q) (month0 : bool) (st : sstatic) (sq : list Q) (additive ret remaining : Q) (obs : list Q) : nat :=
+  let a := {| a_state := mk_state sq; a_births := additive; a_tbirths := 0; a_ret := ret |} in
+  let b := phase_b month0 st a 0 remaining in
+  let scale := Qmax' (Qabs' (nthq sq 0)) (Qmax' (Qabs' (st_target st)) (Qabs' remaining)) in
+  first_diff tol scale 1 [b_slaughter b; b_pop1 b; b_ptot b; b_pbirth b; b_other_death b; b_slpreg b; b_remaining b] obs.
